@@ -5,8 +5,16 @@ import GeoModel.OpsAll
 
 open Geo
 
+def stripPrefixes : List String → List String
+  | "NZ" :: _ :: rest => stripPrefixes rest
+  | "DUP" :: rest => stripPrefixes rest
+  | ts => ts
+
 def dispatch (line : String) : String :=
-  match tokens line with
+  -- `NZ <k>`: negative-zero spelling of the case for the implementation; -0.0 and +0.0 both decode to 0
+  -- `DUP`: marks a case in which the generator repeated a vertex (the repeated vertex is in the line itself)
+  let toks := stripPrefixes (tokens line)
+  match toks with
   | [] => "ERR empty"
   | op :: rest =>
     match splitArrow rest with
